@@ -4,6 +4,7 @@ import json,os
 root=os.path.dirname(os.path.dirname(os.path.abspath(__file__)))
 import glob
 engines=[json.load(open(f)) for f in sorted(glob.glob(os.path.join(root,'harness','*','engine.json')))]
+engines=[e for e in engines if e.get('ready')]
 props={}
 for e in engines: props.update(e.get('props_info',{}))
 for k,v in json.load(open(os.path.join(root,'tools','not_applicable.json'))).items(): props[k]={'not_applicable':v}
